@@ -66,7 +66,7 @@ def expand_src(name, run, insts, chain, deps):
 
 
 def gen(tier):
-    for k in range(0, 4):
+    for k in range(0, 5 if tier == "thorough" else 4):
         per = list(itertools.product(ARGS, OPTS, PARS))
         for combo in itertools.product(per, repeat=k):
             insts = [("e%d" % i, a, o, p) for i, (a, o, p) in enumerate(combo)]
@@ -75,6 +75,8 @@ def gen(tier):
                     continue
                 for deps in DEPS:
                     if k == 3 and tier == "quick" and deps == DEPS[1]:
+                        continue
+                    if k == 4 and (deps == DEPS[1] or chain is False):
                         continue
                     yield {"tag": "k%d" % k, "insts": insts, "chain": chain, "deps": deps, "run": k <= 2}
     # name clashes / malformed members (accept-reject agreement)
